@@ -198,8 +198,12 @@ def generate(seed, tier, prop):
         if rng.random() < 0.5 and power["loads"]:
             rng.choice(power["loads"])["p_mw"] = 4000.0
         else:
-            snk = [o for o in gas["ops"] if o["fn"] == "create_sink"]
-            rng.choice(snk)["kw"]["mdot_kg_per_s"] = 60.0
+            # (not a sink that a power-led coupling overwrites: the initial run would see the infeasible
+            # start value although the final state is feasible)
+            written = {i for c in couplings if c["type"] == "g2p_led" and c["gas_net"] == "gas" for i in c["gas_idx"]}
+            snk = [o for o in gas["ops"] if o["fn"] == "create_sink" and o["kw"]["index"] not in written]
+            if snk:
+                rng.choice(snk)["kw"]["mdot_kg_per_s"] = 60.0
     return {"engine": ENGINE, "prop": prop, "seed": seed, "tier": tier, "nets": nets, "couplings": couplings,
             "const": const, "profiles": profiles, "n_steps": T, "run": run, "faults": faults,
             "permute": rng.random() < 0.5, "perm_seed": rng.randrange(1 << 30),
